@@ -147,6 +147,12 @@ func c17Queries() []string {
 		"* | stats count by F | sort -count", "* | stats count by F | where count>1", "* | eval x=F | stats sum(x)", "* | stats count by F | head 1",
 		"* | sort F | tail 2", "* | head 2 | stats count by F", "* | eval x=len(F) | stats max(x)", "* | stats count(F) as c | eval d=c*2",
 		"* | stats sum(F) by g | sort g", "* | dedup F | stats count", "* | where F=1 OR g=\"B\" | fields id, F",
+		// one- and many-argument predicates and functions in every position that takes an expression: inside a measure, in where, in eval
+		"* | stats count(eval(isnull(F)))", "* | stats count(eval(isnotnull(F))) as c", "* | stats count(eval(isnum(F))) by g", "* | stats count(eval(F in(1,2)))",
+		"* | stats sum(eval(F>1))", "* | stats count(eval(F=1)) by g", `* | stats count(eval(like(F,"1%")))`, `* | stats count(eval(match(F,"1"))), dc(eval(isstr(F)))`,
+		"* | where F in(1,2)", "* | where isnum(F)", "* | where isstr(F) OR isnull(F)", `* | where like(F,"%1")`, `* | where match(F,"1")`, "* | where isnotnull(F) AND NOT isbool(F)",
+		"* | eval x=coalesce(F,g)", `* | eval x=case(F>1,"a",true(),"b")`, "* | eval x=tonumber(F)", "* | eval x=tostring(F)", "* | eval x=mvcount(F)", "* | eval x=isnull(F)",
+		"* | eval x=typeof(F)", "* | eval x=round(F,1)", "* | eval x=substr(F,1,1)", "* | eval x=lower(F)", "* | eval x=null()", "* | eval x=if(isnull(F),0,F) | stats sum(x)",
 	}
 	var out []string
 	for _, t := range templates {
@@ -279,7 +285,7 @@ func C17() int {
 		depth = map[string]int{"Splunk QL": 4, "SQL": 4, "PromQL": 5, "ES": 4}
 	}
 	rep.Rule = "(a) every token string up to a length (Splunk QL/SQL/ES-DSL 3, PromQL 4; one more in thorough) over per-language alphabets (40/21/24/18 tokens incl. lone quote, backslash, NUL, 0xFF, unbalanced " +
-		"JSON) through the real parsers, twice: must return a plan or an error, must not kill the process or hang, and the two plans must be deeply equal. (b) 216 Splunk-QL queries generated from 42 command " +
+		"JSON) through the real parsers, twice: must return a plan or an error, must not kill the process or hang, and the two plans must be deeply equal. (b) 346 Splunk-QL queries generated from 68 command " +
 		"templates × fields {dense, sparse, absent, mixed-type, numeric-string} plus SQL queries, over a 4-event dataset in open and rotated layouts, one call each: the worker stays alive and answers " +
 		"(results or error) within 120 s; afterwards the running-query count is 0 and no goroutine whose stack lies in the query packages remains (compared by stack signature with a baseline taken before). " +
 		"(c) lifecycle under the controlled scheduler: the real query held at its k-th lock operation, for every k, while cancel / a 1 s timeout / a competing query under a running limit of 1 act; each query ends " +
